@@ -63,6 +63,41 @@ def gen(rng, tier):
             fa["kind"] = "nfa" if fa["kind"] == "dfa" else fa["kind"]
         if rk == "det_as_enfa":
             fa["kind"] = "enfa" if fa["kind"] == "dfa" else fa["kind"]
+        if rng.chance(0.45):
+            # an automaton built around words the left operand generates (prefix tree of a sample, plus noise), so that
+            # the intersection is non-empty and strictly smaller more often than with an unrelated automaton
+            if left == "cfg":
+                src_words = sorted(tuple(k.split(":", 1)[1] for k in w) for w in GC.ref_of(g).words_upto(N))
+            else:
+                src_words = sorted(GP.ref_of(p).lang_final_state(N))
+            src_words = [w for w in src_words if all(x in pool for x in w)]
+            if src_words:
+                sample = rng.sample(src_words, min(len(src_words), rng.randint(1, 3)))
+                names = GF.PLAIN_STATES + ["q6", "q7", "q8", "q9", "q10", "q11", "q12"]
+                ids = {(): names[0]}
+                tr = []
+                finals = []
+                for w in sample:
+                    for i in range(len(w)):
+                        if w[:i + 1] not in ids:
+                            if len(ids) >= len(names):
+                                break
+                            ids[w[:i + 1]] = names[len(ids)]
+                            tr.append([ids[w[:i]], w[i], ids[w[:i + 1]]])
+                    if w in ids:
+                        finals.append(ids[w])
+                if rng.chance(0.5) and tr:
+                    t = rng.pick(tr)
+                    loop = [t[2], rng.pick(pool), t[2]]
+                    if not any(x[0] == loop[0] and x[1] == loop[1] for x in tr):
+                        tr.append(loop)
+                fa.update({"states": list(ids.values()), "trans": tr, "starts": [names[0]],
+                           "finals": sorted(set(finals)), "symbols": sorted({t[1] for t in tr}) or [pool[0]],
+                           "ghost_trans": None, "ghost_final": None, "eps_string_edge": None,
+                           "kind": {"dfa": "dfa", "nfa": "nfa", "enfa": "enfa", "det_as_nfa": "nfa",
+                                    "det_as_enfa": "enfa"}[rk]})
+                if fa["valmode"] == "int":
+                    fa["valmode"] = "str"
         fa["symmode"] = symmode
         h = dict(fa.get("hash") or {})
         if symmode == "V":
